@@ -776,7 +776,10 @@ class AnimalSpecies:
 
         NE_required = self.NE_balance.kcals
         if NE_required == 0:
+            # nothing to feed (extinct herd or no energy requirement): nobody is starving
+            self.population_fed = self.current_population
             return grass_input, feed_input
+        NE_required_total = NE_required  # the whole month's requirement, before any grass is eaten
 
         # Calculate NE from grass, if ruminant, else 0
         NE_from_grass = (
@@ -808,8 +811,11 @@ class AnimalSpecies:
                 feed_input.kcals = 0
                 NE_provided = NE_from_grass + NE_from_feed
                 self.NE_balance.kcals -= NE_provided
-                self.population_fed = round(
-                    (NE_provided / self.NE_balance.kcals) * self.current_population
+                # animals fed = herd scaled by the delivered fraction of the whole requirement
+                # (not of what is still owed), and never more than the herd itself
+                self.population_fed = min(
+                    round((NE_provided / NE_required_total) * self.current_population),
+                    self.current_population,
                 )
 
         return grass_input, feed_input
